@@ -287,7 +287,82 @@ func groupRoot(c *fw.Case, withID bool) (*model.Root, string, error) {
 		f.Cols = append(f.Cols, id)
 	}
 	root, err := model.MakeRootFrom(rng, f, 4, false)
+	if err == nil && n <= 5000 && rng.Intn(6) == 0 {
+		if cr := coarsenedRoot(rng, root); cr != nil {
+			return cr, class + "+coarsened", nil
+		}
+	}
 	return root, class, err
+}
+
+// coarsenedRoot derives a frame whose history could leave stale knowledge behind: the frame is sorted on a key column
+// and/or reduced by Distinct, and then that key column is overwritten with a coarser value (so that rows which were
+// in order, or distinct, are not any more). The shadow is re-observed through the API.
+func coarsenedRoot(rng *rand.Rand, root *model.Root) *model.Root {
+	sh := root.Shadow
+	var cands []*model.Col
+	for _, col := range sh.Cols {
+		if col.Name != model.IDCol && col.Name != "vi" && col.Name != "vf" && col.Name != "vb" {
+			cands = append(cands, col)
+		}
+	}
+	if len(cands) == 0 || sh.Len() == 0 {
+		return nil
+	}
+	k := cands[rng.Intn(len(cands))]
+	q := root.QF
+	var ops []string
+	pv, _ := fw.Guard(func() {
+		switch rng.Intn(4) {
+		case 0:
+			q = q.Sort(qframe.Order{Column: k.Name})
+			ops = append(ops, "Sort("+k.Name+")")
+		case 1:
+			q = q.Distinct(groupby.Null(rng.Intn(2) == 0))
+			ops = append(ops, "Distinct()")
+		case 2:
+			q = q.Sort(qframe.Order{Column: k.Name, Reverse: true}).Distinct(groupby.Columns(k.Name), groupby.Null(true))
+			ops = append(ops, "Sort("+k.Name+" desc).Distinct("+k.Name+")")
+		default:
+			q = q.Sort(qframe.Order{Column: k.Name}).Slice(0, q.Len()-q.Len()/5)
+			ops = append(ops, "Sort("+k.Name+").Slice")
+		}
+		var fn interface{}
+		switch k.Kind {
+		case model.KInt:
+			fn = func(x int) int { return ((x % 3) + 3) % 3 }
+		case model.KFloat:
+			fn = func(x float64) float64 {
+				if math.IsNaN(x) || math.IsInf(x, 0) {
+					return x
+				}
+				return math.Mod(math.Trunc(math.Abs(x)), 2)
+			}
+		case model.KBool:
+			fn = func(x bool) bool { return true }
+		default:
+			fn = func(x *string) *string {
+				if x == nil || len(*x) == 0 {
+					return x
+				}
+				s := (*x)[:1]
+				return &s
+			}
+		}
+		q = q.Apply(qframe.Instruction{Fn: fn, DstCol: k.Name, SrcCol1: k.Name})
+		ops = append(ops, "Apply(coarser "+k.Name+")")
+	})
+	if pv != nil || q.Err != nil {
+		return nil
+	}
+	obs, err := model.Observe(q)
+	if err != nil {
+		return nil
+	}
+	meta := model.MetaOf(sh)
+	delete(meta, k.Name)
+	meta.Apply(obs)
+	return &model.Root{Shadow: obs, QF: q, Path: root.Path, Ops: append(append([]string{}, root.Ops...), ops...), Shape: model.IndexShape(q)}
 }
 
 func pickKeys(rng *rand.Rand, sh *model.Frame, allowNone bool) []string {
